@@ -41,10 +41,16 @@ exec(m.group(0), ns)
 T = ns['T']
 M = json.load(open('/verif/seeded/MATRIX.json'))
 for k in sorted(T):
-    if k.endswith(('-K', '-L', '-M')):
+    if re.search(r'-[KLM]p?$', k):
         cb = M.get(k, {}).get('caught_by') or []
         v = M.get(k, {}).get('own_check_verdict')
         wave += '| %s | %s | %s | %s |\n' % (k, T[k][1], T[k][2], ', '.join(cb) if cb else ('undecided (exit 2)' if v == 'ANALYSIS-BROKEN' else '-'))
+wave += '''
+*Re-ported seeds.*  A seed whose patch no longer applied after a later repair of /repo was re-ported to the new HEAD, confirmed
+again (build, 129 tests, demo fails with / passes without) and stored with the suffix `p`; the old directory was removed.  That
+happened to C11-C and C11-F (after 08c79a5) and to C02-L, C12-F, C15-G and C15-I (after 6281ee1, all four touch `load()`); the
+tables above keep the original names, `seeded/MATRIX.json` has the rows C11-Cp, C11-Fp, C02-Lp, C12-Fp, C15-Gp, C15-Ip.
+'''
 old = "### 10.5 Not reached"
 assert s.count(old) == 1
 s = s.replace(old, wave + "\n" + old)
